@@ -63,8 +63,8 @@ func nodeLess(a, b RingNode) bool {
 // RingPosition is compute_ring_position: the first four hex digits of the MD5 digest.
 func RingPosition(key []byte) uint16 {
 	sum := md5.Sum(key)
-	hx := hex.EncodeToString(sum[:])
-	v, err := strconv.ParseUint(hx[:4], 16, 16)
+	hx := hex.EncodeToString(sum[:2]) // = hexdigest()[:4]
+	v, err := strconv.ParseUint(hx, 16, 16)
 	if err != nil {
 		panic(err)
 	}
@@ -99,7 +99,7 @@ func NewRing(nodes []RingNode) *Ring {
 			r.Entries = append(r.Entries, RingEntry{RingPosition([]byte(key)), i})
 		}
 	}
-	sort.SliceStable(r.Entries, func(a, b int) bool {
+	sort.Slice(r.Entries, func(a, b int) bool {
 		ea, eb := r.Entries[a], r.Entries[b]
 		if ea.Pos != eb.Pos {
 			return ea.Pos < eb.Pos
